@@ -471,10 +471,7 @@ harness! {
     #[kani::unwind(8)]
     fn c11_td_backlog_bounded() {
         let mut d = TDigestInner::new(AdvScale, 1);
-        let b: u8 = any();
-        assume(b <= 1);
-        let mut i = 0;
-        while i < b { d.backlog.push(Centroid { sum: 1., count: 1. }); i += 1; }
+        d.backlog.push(Centroid { sum: 1., count: 1. });
         d.min = 0.; d.max = 2.; d.n_samples = 3;
         d.insert_weighted(grid(0, 2, 1.), weight());
         assert!(d.backlog.len() <= d.max_backlog_size, "C11 backlog never exceeds max_backlog_size after an insert");
